@@ -374,6 +374,13 @@ func (e *Enc) applyContract(fr *Frame, c *Contract, key string, args []Term, arg
 			n := e.def("opseq", T(SInt, "(+ (select %s 0) 1)", ah.S))
 			e.heapSet(st, ak, store(store(ah, Term{"0", SInt}, n), intLit64(int64(c.Traced)), n))
 		}
+		if e.w.CS.Ghosts["opcnt"] != nil {
+			// opcnt[id]: how often operation id was called by this activation
+			nk, _ := e.ghostKey("opcnt")
+			nh := e.heapGet(st, nk)
+			id := intLit64(int64(c.Traced))
+			e.heapSet(st, nk, store(nh, id, T(SInt, "(+ (select %s %s) 1)", nh.S, id.S)))
+		}
 	}
 	return rs
 }
@@ -497,19 +504,19 @@ func (e *Enc) appendOp(fr *Frame, v *ssa.Call, cc *ssa.CallCommon, st *State, re
 	oldS := sel(mem, T(SInt, "(s_arr %s)", s.S), inner)
 	lo := e.def("applo", T(SInt, "(+ %s (s_len %s))", dstOff.S, s.S))
 	// kept prefix: A'[j] = old s[j - dstOff]   for dstOff <= j < dstOff + len(s)
-	e.assume(tTrue, T(SBool, "(forall ((j Int)) (! (=> (and (<= %s j) (< j %s)) (= (select %s j) (select %s (+ (s_off %s) (- j %s))))) :pattern ((select %s j))))",
+	e.assumeMem(tTrue, T(SBool, "(forall ((j Int)) (! (=> (and (<= %s j) (< j %s)) (= (select %s j) (select %s (+ (s_off %s) (- j %s))))) :pattern ((select %s j))))",
 		dstOff.S, lo.S, na.S, oldS.S, s.S, dstOff.S, na.S))
 	if !isStr {
 		src := sel(mem, srcArr, inner)
 		// appended part: A'[j] = src[j - lo]   for lo <= j < lo + n
-		e.assume(tTrue, T(SBool, "(forall ((j Int)) (! (=> (and (<= %s j) (< j (+ %s %s))) (= (select %s j) (select %s (+ %s (- j %s))))) :pattern ((select %s j))))",
+		e.assumeMem(tTrue, T(SBool, "(forall ((j Int)) (! (=> (and (<= %s j) (< j (+ %s %s))) (= (select %s j) (select %s (+ %s (- j %s))))) :pattern ((select %s j))))",
 			lo.S, lo.S, n.S, na.S, src.S, srcOff.S, lo.S, na.S))
 	} else {
-		e.assume(tTrue, T(SBool, "(forall ((j Int)) (! (=> (and (<= %s j) (< j (+ %s %s))) (= (select %s j) (str_at %s (- j %s)))) :pattern ((select %s j))))",
+		e.assumeMem(tTrue, T(SBool, "(forall ((j Int)) (! (=> (and (<= %s j) (< j (+ %s %s))) (= (select %s j) (str_at %s (- j %s)))) :pattern ((select %s j))))",
 			lo.S, lo.S, n.S, na.S, arg1.S, lo.S, na.S))
 	}
 	// in place: everything outside [dstOff, lo + n) is untouched
-	e.assume(tTrue, T(SBool, "(=> %s (forall ((j Int)) (! (=> (or (< j %s) (>= j (+ %s %s))) (= (select %s j) (select %s j))) :pattern ((select %s j)))))",
+	e.assumeMem(tTrue, T(SBool, "(=> %s (forall ((j Int)) (! (=> (or (< j %s) (>= j (+ %s %s))) (= (select %s j) (select %s j))) :pattern ((select %s j)))))",
 		fits.S, dstOff.S, lo.S, n.S, na.S, oldS.S, na.S))
 	e.heapSet(st, mk, store(mem, dstArr, na))
 }
@@ -534,13 +541,13 @@ func (e *Enc) copyOp(fr *Frame, v *ssa.Call, cc *ssa.CallCommon, st *State, reac
 	na := e.fresh("copyarr", inner)
 	if src.Sort != SStr {
 		oldS := sel(mem, T(SInt, "(s_arr %s)", src.S), inner)
-		e.assume(tTrue, T(SBool, "(forall ((j Int)) (! (=> (and (<= (s_off %s) j) (< j (+ (s_off %s) %s))) (= (select %s j) (select %s (+ (s_off %s) (- j (s_off %s)))))) :pattern ((select %s j))))",
+		e.assumeMem(tTrue, T(SBool, "(forall ((j Int)) (! (=> (and (<= (s_off %s) j) (< j (+ (s_off %s) %s))) (= (select %s j) (select %s (+ (s_off %s) (- j (s_off %s)))))) :pattern ((select %s j))))",
 			dst.S, dst.S, n.S, na.S, oldS.S, src.S, dst.S, na.S))
 	} else {
-		e.assume(tTrue, T(SBool, "(forall ((j Int)) (! (=> (and (<= (s_off %s) j) (< j (+ (s_off %s) %s))) (= (select %s j) (str_at %s (- j (s_off %s))))) :pattern ((select %s j))))",
+		e.assumeMem(tTrue, T(SBool, "(forall ((j Int)) (! (=> (and (<= (s_off %s) j) (< j (+ (s_off %s) %s))) (= (select %s j) (str_at %s (- j (s_off %s))))) :pattern ((select %s j))))",
 			dst.S, dst.S, n.S, na.S, src.S, dst.S, na.S))
 	}
-	e.assume(tTrue, T(SBool, "(forall ((j Int)) (! (=> (or (< j (s_off %s)) (>= j (+ (s_off %s) %s))) (= (select %s j) (select %s j))) :pattern ((select %s j))))",
+	e.assumeMem(tTrue, T(SBool, "(forall ((j Int)) (! (=> (or (< j (s_off %s)) (>= j (+ (s_off %s) %s))) (= (select %s j) (select %s j))) :pattern ((select %s j))))",
 		dst.S, dst.S, n.S, na.S, oldD.S, na.S))
 	e.heapSet(st, mk, store(mem, T(SInt, "(s_arr %s)", dst.S), na))
 }
@@ -765,7 +772,7 @@ func (e *Enc) havocLoopHeaps(fr *Frame, li *loopInfo, st *State) {
 		e.havocAll(st)
 		// activation-local ghosts survive havocs of callees but not explicit writes in the loop
 		for name, g := range e.w.CS.Ghosts {
-			if g.Local {
+			if g.Local || g.Stable {
 				k, _ := e.ghostKey(name)
 				if keys[k] {
 					st.heaps[k] = e.fresh("H_"+k+"_loop", e.heapSort[k])
